@@ -287,6 +287,7 @@ def path_universe(tier, seed, heavy=True):
          in which a self-loop is present; quick: <= 4 cells (directed <= 3); thorough: all (directed <= 4 cells) -- complete
       D  the relations of A / B with <= 2 cells (thorough, undirected: <= 3 cells) moved to the instant sets
          (10,11,12) (-3,-2,-1) (-1,0,1) (0,2,5) (1,3,4) (-4,-2,-1) and to string ids 'a','b','c'        -- complete
+      G  the relations of A / B with <= 3 cells on the instants (1,11,12) with node ids (1,11,2) and ('a','a1','a11')   -- complete
       E  seeded random relations: directed 3 nodes x 3 instants with >= 3 pairs; both classes 4 nodes x 4 instants
          (quick: 100 + 100; thorough 1000 + 1000, plus 300 on 5 nodes x instants (0,1,2,3,5))          -- sampled
     """
@@ -310,6 +311,13 @@ def path_universe(tier, seed, heavy=True):
                 yield cls, {p: frozenset(tmap[q] for q in S) for p, S in r.items()}, 'D'
         for r in small:
             yield cls, rename(r, STR), 'D'
+        # G  confusable ids and instants: node ids that are prefixes of one another and instants whose decimal form continues
+        #    them (node 1 at instant 11 / node 11 at instant 1; 'a' at 11 / 'a1' at 1), relations with <= 3 cells   -- complete
+        small3 = [r for r in base if sum(map(len, r.values())) <= 3]
+        tmap = dict(zip(T0, (1, 11, 12)))
+        for nmap in ({1: 1, 2: 11, 3: 2}, {1: 'a', 2: 'a1', 3: 'a11'}):
+            for r in small3:
+                yield cls, rename({p: frozenset(tmap[q] for q in S) for p, S in r.items()}, nmap), 'G'
     if not heavy:
         return
     n = 100 if tier == 'quick' else 1000
@@ -1195,22 +1203,26 @@ def c20_conformity(tier, seed):
         sk = state_key(G)
         labs = labellings(ctx.nodes, rng, 2 if tier == 'quick' else 4)
         if tag == 'F':
-            labs = labs[:1]                     # the homogeneous labelling (score 1 for every node that reaches another one)
+            labs = labs[:2]                     # the homogeneous labelling (score 1 for every node that reaches another one) + one mixed
         if gi % 4 == 0 and tag != 'F':
             two = dict(labs[-1])
             two['grp'] = {n: rng.choice('pq') for n in ctx.nodes}
             labs.append(two)
-        for lab in labs:
+        for li, lab in enumerate(labs):
             ps = 2 if len(lab) > 1 else 1
             lj = _l(sorted((name, sorted(d.items(), key=repr)) for name, d in lab.items()))
-            for pt in (PATH_TYPES if tag != 'F' else PATH_TYPES[:2]):
-                for delta in ((0, 1, 2) if tag != 'F' else (3, 5)):
-                    for start in (range(ctx.ids[0], ctx.ids[-1] + 1) if tag != 'F' else (ctx.ids[0],)):
-                        pr, nt = conformity_problems('DynGraph', h, lab, start, delta, alphas, ps, pt)
-                        col.seen((sk, repr(lj), start, delta, pt), nt, {'history': h, 'labels': lj, 'call': [start, delta, pt]})
-                        for check, detail in dict(pr).items():
-                            kinds.add(check, 'DynGraph', h, detail, fn='delta', labels=lj, start=start, delta=delta, alphas=alphas,
-                                      profile_size=ps, path_type=pt)
+            # planted walks: delta_conformity against the oracle for the homogeneous labelling and two path types; the sliding form
+            # (compared with the per-t calls of the real code) for the mixed labelling too and all five path types, where the
+            # path type changes the distances and with them the scores
+            for pt in PATH_TYPES:
+                for delta in ((0, 1, 2) if tag != 'F' else (2, 3, 5)):
+                    if tag != 'F' or (li == 0 and pt in PATH_TYPES[:2] and delta != 2):
+                        for start in (range(ctx.ids[0], ctx.ids[-1] + 1) if tag != 'F' else (ctx.ids[0],)):
+                            pr, nt = conformity_problems('DynGraph', h, lab, start, delta, alphas, ps, pt)
+                            col.seen((sk, repr(lj), start, delta, pt), nt, {'history': h, 'labels': lj, 'call': [start, delta, pt]})
+                            for check, detail in dict(pr).items():
+                                kinds.add(check, 'DynGraph', h, detail, fn='delta', labels=lj, start=start, delta=delta, alphas=alphas,
+                                          profile_size=ps, path_type=pt)
                     pr, nt = sliding_problems('DynGraph', h, lab, delta, alphas, ps, pt)
                     col.seen((sk, repr(lj), 'sliding', delta, pt), nt)
                     for check, detail in pr:
